@@ -138,7 +138,7 @@ Theorem C15_lockstep_build_partial : forall (H : str -> str),
   (forall a b, H a = H b -> a = b) ->
   forall cfgA cfgM s,
   cfg_mode cfgA = LAll -> cfg_mode cfgM = LMinimal -> cfg_cache cfgA = true -> cfg_cache cfgM = true ->
-  cfg_failfast cfgA = cfg_failfast cfgM -> no_overwrite s -> plain s ->
+  cfg_failfast cfgA = cfg_failfast cfgM -> no_overwrite s -> plain_cacheable s ->
   forall c0 roots wA wM,
   deps_short s -> cinv H c0 -> w_ext wA = w_ext wM ->
   build_guard H cfgA s c0 roots wA ->
